@@ -1149,7 +1149,14 @@ func evalCase(s *space, idx int, startBit int, careful bool, thorough bool, dead
 					if ep != epTyped {
 						by = " by " + entryWord[ep]
 					}
-					cc.viol("C12.digest", "Interest whose parameters digest does not match ("+m.what+") is accepted on decode"+by,
+					class := "a wrong 32-byte digest value"
+					switch {
+					case strings.HasPrefix(m.what, "the parameters value"):
+						class = "parameters value longer or shorter than the digest covers"
+					case len(m.pkt) != n:
+						class = "a digest component that is not 32 bytes long"
+					}
+					cc.viol("C12.digest", "Interest whose parameters digest does not match ("+class+") is accepted on decode"+by,
 						fmt.Sprintf("%s: %s, lengths adjusted: decodes through %s", fam, m.what, entryNames[ep]),
 						map[string]any{"mismatch": m.what, "entry_point": entryNames[ep], "tampered_bytes": hexCap(m.pkt)})
 					break
